@@ -185,6 +185,8 @@ def one(rng, root, env, toks, nodes, text, desc):
                 oracle = "root.findall(text) differs from ASTXpath(text).findall(root)"
             elif g2 is not first:
                 oracle = "root.find(text) differs from the first node of findall"
+            elif nodes and [xp.match(root, n) for n in nodes[:12]] != [m for _n, m in ms[:12]]:
+                oracle = "match(root node, n) differs from match(Tree(root), n)"
     except Exception as e:  # noqa
         real = dumps([A("raise"), A(type(e).__name__)])
     global N_FOUND
